@@ -50,11 +50,13 @@ LEVEL_TEXT = ("Machine-checked, for EVERY input and EVERY allocator behaviour (a
               "twice, table unchanged on failure; the serializer over the fallible print buffer — a returned text is the fault-free text; the "
               "tokener's attach step (array/object add of the finished child) — the child is released exactly once when attaching fails; the "
               "constructors with roll-back (new_double_s, new_object, new_array, printbuf_new, tokener_new); sprintbuf with its vasprintf temporary on "
-              "either side of the 128-byte stack buffer (contents per C19, the temporary released exactly once on every path).  Each repaired defect has a negative "
+              "either side of the 128-byte stack buffer (contents per C19, the temporary released exactly once on every path); "
+              "json_c_set_serialization_double_format over C02's settings model (SerModel.set_format): -1 leaves the configuration, hence every "
+              "thread's effective format, and the live blocks exactly as they were.  Each repaired defect has a negative "
               "control: the original code shape is kept as a second definition with a *_refuted theorem whose witness is evaluated by vm_compute. "
               "PARTIAL: the tokener's other allocation sites (token buffer appends, node constructors, member-name copy inside the state machine), "
               "json_tokener_parse_verbose / json_object_from_fd_ex, deep copy, JSON pointer get/set, JSON patch, json_object_get_string of a "
-              "non-string and json_c_set_serialization_double_format are NOT covered by theorems; they are covered only by the exhaustive-k "
+              "non-string are NOT covered by theorems; they are covered only by the exhaustive-k "
               "fault enumeration of this check on the sampled workloads (every allocation index of each workload, plus sampled double faults "
               "in the thorough tier).")
 LEVEL_NOTE = ("Trusted: Coq kernel; extraction + OCaml glue; harness and allocator interposition; ASan/UBSan.  The theorems are about the Gallina models; "
@@ -256,6 +258,19 @@ def corpus():
     add("double_format", ["dft,%s" % hx(b"%.3f"), "b0=d3ff8000000000000"], ["dft,%s" % hx(b"%.2f"), "js0,0"])
     add("double_format", ["dfg,%s" % hx(b"%.3f"), "b0=[d3ff8000000000000]"], ["dft,%s" % hx(b"%.1f"), "dfg,-", "js0,0"])
     add("double_format", ["b0=d3ff8000000000000"], ["dfg,%s" % hx(b"%.2f"), "dft,%s" % hx(b"%.4f"), "js0,0"])
+    # configuration calls that allocate, exhaustively over short histories: every fault-free prefix of at most two
+    # calls (GLOBAL / THREAD x format A / format B / NULL: thread then global, global then thread, reset, the same
+    # format twice, ...) followed by every call as the one under test.  The state dump shows the EFFECTIVE format of
+    # the calling thread (1.5 and 2.0 serialized), so a failed call that drops or swaps any of the two settings shows.
+    fa, fb = hx(b"%.3f"), hx(b"%.0f")
+    calls = ["dfg," + fa, "dfg," + fb, "dfg,-", "dft," + fa, "dft," + fb, "dft,-"]
+    prefixes = [[]] + [[c] for c in calls] + [[c1, c2] for c1 in calls for c2 in calls]
+    for pre in prefixes:
+        for c in calls:
+            add("config_history", pre, [c])
+    for pre in ([], ["dft," + fa], ["dfg," + fb, "dft," + fa]):
+        add("config_history", pre, ["dfx," + fa])                                       # invalid scope: refused, no allocation
+        add("config_history", pre + ["b0=[d3ff8000000000000,d4000000000000000,i3]"], ["dfg," + fb, "js0,0", "dft,-", "js0,0"])
     # ---- pointer get (works on a copy of the path)
     add("pointer_get", ["b0={61={62=[i1,{63=s64}]}}"], ["pg0,%s" % hx(b"/a/b/1/c"), "pg0,%s" % hx(b"/a/x"), "pg0,%s" % hx(b"")])
     # ---- pointer set: creating members, appending, replacing
@@ -330,6 +345,11 @@ def gen_random(rng, n, doubles=0):
             kind, setup, test = "r_set_string", ["b0=s" + hx(bytes(rng.randrange(1, 256) for _ in range(l0)))], steps
             if rng.random() < 0.6:
                 setup, test = setup + steps[:-1], steps[-1:]
+        elif r < 0.945:
+            fmts = [hx(f) for f in (b"%.3f", b"%.0f", b"%.17g", b"%f", b"%.1f|" + b"x" * 40)] + ["-"]
+            hist = ["df%s,%s" % (rng.choice("gt"), rng.choice(fmts)) for _ in range(rng.randint(0, 5))]
+            kind, setup = "r_config", hist + ["b0=[d3ff8000000000000,d4000000000000000]"]
+            test = ["df%s,%s" % (rng.choice("ggtx"), rng.choice(fmts)) for _ in range(rng.randint(1, 3))] + (["js0,0"] if rng.random() < 0.5 else [])
         elif r < 0.955:
             # the print-buffer API: a random fault-free prefix, then sprintbuf / memappend / memset calls whose output
             # lengths straddle the stack-buffer limit (127 | 128) and the current capacity
